@@ -28,4 +28,11 @@ package dpipe
 //@   modifies lastUntil
 //@   ensures [nil] err == nil
 
+// ---- lock discipline (C19): every field is set once by Pipe() and then only read; synchronisation is by channels
+//@ field conn rCh immutable
+//@ field conn wCh immutable
+//@ field conn readDeadline immutable
+//@ field conn writeDeadline immutable
+//@ lockset C19: conn
+
 //@ property C10: conn.Read, conn.SetReadDeadline
